@@ -454,6 +454,25 @@ def search(before, after, rnd, tries=40):
 
 
 # ------------------------------------------------------------------ observer
+def expected_refusal(before, exc):
+    """CFGNormalization refuses (CompilerPanic) to split the edge of a `djmp` whose target has another predecessor: the
+    jump table would still point at the old label (defect found by this part; repaired by failing closed).  Only that
+    message on such a function is accepted."""
+    if type(exc).__name__ != "CompilerPanic" or "of a djmp has another predecessor" not in str(exc):
+        return False
+    preds = {}
+    for lab, insts in before["blocks"]:
+        if insts and insts[-1][0] in JUMPS:
+            for a in insts[-1][1]:
+                if a[0] == "lab":
+                    preds.setdefault(a[1], set()).add(lab)
+    for lab, insts in before["blocks"]:
+        if insts and insts[-1][0] == "djmp":
+            if any(len(preds.get(a[1], ())) > 1 for a in insts[-1][1] if a[0] == "lab"):
+                return True
+    return False
+
+
 class Observer:
     def __init__(self, max_insts=700):
         self.max_insts = max_insts
@@ -463,6 +482,7 @@ class Observer:
         self.too_big = 0
         self.errors = []
         self.crashes = []
+        self.refusals = 0
         self.origin = None
 
     def __enter__(self):
@@ -486,6 +506,9 @@ class Observer:
                 try:
                     r = _orig(self_, *a, **k)
                 except Exception as e:
+                    if before is not None and _nm == "CFGNormalization" and expected_refusal(before, e):
+                        obs.refusals += 1
+                        raise
                     if before is not None and len(obs.crashes) < 5:
                         obs.crashes.append({"pass": _nm, "error": f"{type(e).__name__}: {e}"[:400], "before": snap_text(before)[:6000],
                                             "origin": obs.origin})
@@ -591,6 +614,19 @@ def run_regressions(obs):
         except Exception as e:
             out.append({"replay": str(d / "branchopt_equal_targets.venom"), "level": lvl.name, "error": f"{type(e).__name__}: {e}"[:300],
                         "command": "run_passes_on(parse_venom(text), VenomOptimizationFlags(level=...))"})
+    # corpus/C14/normalization_djmp_table.venom: must be refused (it used to return a wrong value)
+    for lvl in (OptimizationLevel.NONE, OptimizationLevel.GAS, OptimizationLevel.CODESIZE, OptimizationLevel.O3):
+        obs.origin = f"regression:normalization_djmp_table.venom:{lvl.name}"
+        try:
+            run_passes_on(parse_venom((d / "normalization_djmp_table.venom").read_text()), VenomOptimizationFlags(level=lvl))
+            out.append({"replay": str(d / "normalization_djmp_table.venom"), "level": lvl.name,
+                        "error": "compiled: CFGNormalization split a djmp edge although the jump table keeps the old label "
+                                 "(wrong value at run time: corpus/C14/normalization_djmp_table.py)",
+                        "command": "PYTHONPATH=/repo:/verif/tools /venv/bin/python corpus/C14/normalization_djmp_table.py"})
+        except Exception as e:
+            if "of a djmp has another predecessor" not in str(e):
+                out.append({"replay": str(d / "normalization_djmp_table.venom"), "level": lvl.name, "error": f"{type(e).__name__}: {e}"[:300],
+                            "command": "run_passes_on(parse_venom(text), VenomOptimizationFlags(level=...))"})
     obs.origin = None
     return out
 
@@ -734,8 +770,8 @@ def part_cfg_passes(ctx):
                       dict(pb, call="run_passes_on + generate_assembly_experimental + generate_bytecode, pyrevm, calldata = n,5,9"),
                       key="backend-phi-parallel")
     for rg in regress[:2]:
-        ctx.violation("failing-input", "the venom pipeline crashes on a program it must compile (regression of a repaired defect): "
-                      + rg["error"][:120], rg, key="cfgpass-crash:BranchOptimizationPass")
+        ctx.violation("failing-input", "regression of a repaired defect of the venom pipeline: " + rg["error"][:120], rg,
+                      key="cfgpass:CFGNormalization" if "normalization_djmp_table" in rg["replay"] else "cfgpass-crash:BranchOptimizationPass")
     for cr in ([] if regress else obs.crashes[:2]):
         ctx.violation("failing-input", f"{cr['pass']} raises {cr['error'][:120]} on a well-formed function",
                       {"pass": cr["pass"], "error": cr["error"], "function_before": cr["before"], "origin": cr["origin"],
@@ -751,7 +787,7 @@ def part_cfg_passes(ctx):
     items = fam_items + cor_items
     stats = {"programs": len(progs), "family_pass_runs": nfam, "compile_failures": nfail, "compile_seconds": round(t_compile, 1),
              "invocations": dict(obs.calls), "unchanged": dict(obs.unchanged), "too_big_skipped": obs.too_big,
-             "distinct_changing_invocations": len(obs.items), "checked": 0,
+             "distinct_changing_invocations": len(obs.items), "checked": 0, "expected_refusals_djmp_split": obs.refusals,
              "accepted": {p: 0 for p in PASSES}, "rejected": {p: 0 for p in PASSES}, "unsupported": {}}
     todo = []
     for it in items:
